@@ -538,7 +538,42 @@ class NetSim:
         self.end_state = c.state.name
         self.pending_at_end = [t.get_name() for t, hs in loop.task_log if not hs and not t.done()]
         h.cancel()
+        await self._drain_after_close()
         self.ev("sim", "end", self.end_state)
+
+    DRAIN_MAX_S = 7200.0
+
+    async def _drain_after_close(self):
+        """After close(): keep the simulation going (heartbeat stopped) until every task the client created is
+        done or nothing is left that could ever wake one (no timer, no simulator event, nothing ready).  Tasks
+        pending at that point never finish."""
+        loop = self.loop
+        self.never_finished = None
+        if not self.close_started:
+            return
+        def pend():
+            return [t.get_name() for t, hs in loop.task_log if not hs and not t.done()]
+        if not pend():
+            self.never_finished = []
+            return
+        limit = loop.vt + self.DRAIN_MAX_S
+        idle = 0
+        while loop.vt < limit and pend():
+            timers = [th._when for th in loop._scheduled if not th._cancelled]
+            nxt = min(timers + ([loop.q[0][0]] if loop.q else []), default=None)
+            if nxt is None:
+                if not loop._ready:
+                    idle += 1
+                    if idle > 3:
+                        break
+                else:
+                    idle = 0
+                await loop.sim_sleep(1e-6)
+                continue
+            idle = 0
+            await loop.sim_sleep(max(nxt - loop.vt, 0.0) + 1e-6)
+        self.never_finished = pend()
+        self.drain_end_vt = loop.vt
 
     def run(self):
         install_reader_probe()
@@ -637,6 +672,8 @@ class NetSim:
         o.end_vt = self.end_vt if self.end_vt is not None else self.loop.vt
         o.end_state = getattr(self, "end_state", None)
         o.pending_at_end = getattr(self, "pending_at_end", [])
+        o.never_finished = getattr(self, "never_finished", None)
+        o.drain_end_vt = getattr(self, "drain_end_vt", None)
         o.unhandled = self.unhandled
         o.crashed = self.crashed
         o.wall_hit = self.wall_hit
